@@ -161,6 +161,8 @@ def fileset_specs(draw, family, sep):
         else:
             kind = family
         comp = draw(st.sampled_from(COMPS))
+        if specs and draw(st.booleans()):
+            comp = specs[0]["comp"]      # plain moves need the same format
         ext = draw(st.sampled_from(EXT[kind]))
         tpl = draw(history_template(user, ext + comp))
         if kind == "user":
@@ -501,7 +503,8 @@ def histories(draw, family, max_ops=12):
                                                    "path"])),
                 "copy": draw(st.booleans()),
                 "convert": draw(st.sampled_from([False, False, None, True,
-                                                 True, "callable"])),
+                                                 True, "callable", "callable",
+                                                 "raises"])),
                 "worker_type": draw(st.sampled_from([None, "thread",
                                                      "thread", "process"])),
                 "sel": draw(selections(bounds, user))})
